@@ -127,7 +127,7 @@ def to_case(v):
 
 # ------------------------------------------------------------------------------------------------ literal carriers
 PIECES = ['a', 'b c', '  ', ' \t', '\t', '\n', '\n\n', ' \n', '\t\n', '//', '/*', '*/', '"', "'", '\\', '\\n', '\\"', ')', '(', ')"', 'é', '中', '#', '{', '}',
-          ';', '%d', 'x  y', '\\\\', 'R"(', ')x"', ')a"', ')xy"', ')_', '@', '$', '`']
+          ';', '%d', 'x  y', '\\\\', 'R"(', ')x"', ')a"', ')xy"', ')_', '@', '$', '`', '\U0001F600', '\U0001D49C', '\U0010FFFD', '\u00df']
 
 
 def content(rng, forbid=(), n=None):
@@ -150,7 +150,8 @@ def carrier(rng):
             c += ')' + delim[0] + 'q' * (len(delim) - 1) + '"  +   "tail'
         if delim == '':
             c = c.replace(')"', ') "')
-        return 'CPP', 'void f()\n{\n%sauto s = R"%s(%s)%s";\n%sint after = 1;\n}\n' % (ind, delim, c, delim, ind)
+        pre = rng.choice(['', '', 'L', 'u8', 'u', 'U'])       # every encoding prefix a raw string can carry
+        return 'CPP', 'void f()\n{\n%sauto s = %sR"%s(%s)%s";\n%sint after = 1;\n}\n' % (ind, pre, delim, c, delim, ind)
     if k == 1:      # two raw strings and a prefix
         c1 = content(rng, forbid=(')q"',))
         c2 = content(rng, forbid=(')q"',))
@@ -161,7 +162,9 @@ def carrier(rng):
         return 'C', 'const char *s = "%s\\\n%s";\nint   after;\n' % (c, c2)
     if k == 3:      # ordinary string / char with tabs and comment openers
         c = content(rng, forbid=('"', '\n', '\\', '`', '$', '@'))
-        return rng.choice(['C', 'CPP', 'OC', 'JAVA', 'CS', 'D', 'VALA']), 'int f(void) {\n%sg("%s"  ,\'%s\');\n}\n' % (ind, c, rng.choice(['\t', '/', '*', 'x', '\\t', '\\\'']))
+        lang = rng.choice(['C', 'CPP', 'OC', 'JAVA', 'CS', 'D', 'VALA'])
+        pre, cpre = (rng.choice(['', '', 'L', 'u8', 'u', 'U']), rng.choice(['', '', 'L', 'u', 'U'])) if lang in ('C', 'CPP') else ('', '')
+        return lang, 'int f(void) {\n%sg(%s"%s"  ,%s\'%s\');\n}\n' % (ind, pre, c, cpre, rng.choice(['\t', '/', '*', 'x', '\\t', '\\\'']))
     if k == 4:      # C# verbatim string
         c = content(rng, forbid=('"', '`', '$', '@'))
         return 'CS', 'class A {\n%sstring s = @"%s";\n%sint after = 1;\n}\n' % (ind, c, ind)
